@@ -27,7 +27,7 @@ pub trait UriExt {
         let authority = self.get_authority();
 
         // Filter out "localhost"
-        if authority == "localhost" {
+        if authority.eq_ignore_ascii_case("localhost") {
             return true;
         }
 
